@@ -194,4 +194,5 @@ Section Body.
     unfold loop_body3, sm3_loop. cbv iota. unfold lens_val, masks_val, mrow_col, mbits_col in *.
     body_script3 k Hk.
   Qed.
+
 End Body.
